@@ -98,8 +98,11 @@ def build(sh, evaluate=None):
         return E["vs"][sh[1]]
     if op == "f":
         return E["fs"][sh[1]](E["t"])
-    if op == "sc":
-        return scalar_obj(sh[1]) * build(sh[2], evaluate)
+    if op in ("sc", "scr"):
+        # the coefficient is a scalar symbol / number, or itself a scalar SHAPE (dot, norm, mixed product ...); "scr" writes the
+        # product as vector * coefficient (products of vectors are not known to commute, so SymPy keeps the written order)
+        coef = build(sh[1], evaluate) if isinstance(sh[1], tuple) else scalar_obj(sh[1])
+        return coef * build(sh[2], evaluate) if op == "sc" else build(sh[2], evaluate) * coef
     if op == "add":
         return build(sh[1], evaluate) + build(sh[2], evaluate)
     if op == "sub":
@@ -136,8 +139,8 @@ def meaning(sh, enc, want_d=False):
         so = scalar_obj(sh[1])
         d = enc.tr(sp.Derivative(so, E["t"])) if (want_d and sh[1] == "s") else z
         return enc.tr(so), d
-    if op == "sc":
-        s, ds = meaning(("k", sh[1]), enc, want_d)
+    if op in ("sc", "scr"):
+        s, ds = meaning(sh[1] if isinstance(sh[1], tuple) else ("k", sh[1]), enc, want_d)
         v, dv = meaning(sh[2], enc, want_d)
         return tuple(s * c for c in v), tuple(ds * c + s * dc for c, dc in zip(v, dv))
     if op in ("add", "sub"):
@@ -189,8 +192,8 @@ def num_meaning(sh, nv: NumVec, want_d=False):
     if op == "k":
         so = scalar_obj(sh[1])
         return nv.scal(so), (nv.scal(sp.Derivative(so, E["t"])) if (want_d and sh[1] == "s") else sp.S.Zero)
-    if op == "sc":
-        s, ds = num_meaning(("k", sh[1]), nv, want_d)
+    if op in ("sc", "scr"):
+        s, ds = num_meaning(sh[1] if isinstance(sh[1], tuple) else ("k", sh[1]), nv, want_d)
         v, dv = num_meaning(sh[2], nv, want_d)
         return tuple(s * c for c in v), tuple(ds * c + s * dc for c, dc in zip(v, dv))
     if op in ("add", "sub"):
@@ -233,7 +236,9 @@ def shape_str(sh):
     if op == "k":
         return str(sh[1]) if sh[1] != "s" else "s(t)"
     if op == "sc":
-        return f"{sh[1] if sh[1] != 's' else 's(t)'}*{shape_str(sh[2])}"
+        return f"{shape_str(sh[1]) if isinstance(sh[1], tuple) else (sh[1] if sh[1] != 's' else 's(t)')}*{shape_str(sh[2])}"
+    if op == "scr":
+        return f"{shape_str(sh[2])}*{shape_str(sh[1]) if isinstance(sh[1], tuple) else sh[1]}"
     if op in ("add", "sadd"):
         return f"({shape_str(sh[1])}+{shape_str(sh[2])})"
     if op == "sub":
@@ -410,6 +415,12 @@ def run(ctx):
             d2 += [("dot", x, ("v", 3)), ("cross", ("v", 3), x)]
             if (s1, s2) in (("k", "k"), ("k", "l"), (-1, -1), (2, 2), ("k", -1)) and (u, v) in ((("v", 0), ("v", 1)), (("v", 2), ("v", 0))):
                 d2 += [("norm", x), ("norm", ("sub", ("sc", s1, u), ("sc", s2, v)))]       # norms are the expensive queries (square roots)
+    # vectors whose coefficient is itself a product of vectors (dot, norm, mixed, k*dot): coefficient extraction must keep it
+    coefs = [("dot", ("v", 2), ("v", 3)), ("norm", ("v", 2)), ("smul", ("k", "k"), ("dot", ("v", 0), ("v", 1))), ("mixed", ("v", 1), ("v", 2), ("v", 3))]
+    for cf in coefs:
+        for x in (("cross", ("v", 0), ("v", 1)), ("v", 0), ("add", ("v", 0), ("cross", ("v", 1), ("v", 2)))):
+            for y in (("sc", cf, x), ("scr", cf, x)):
+                d2 += [("dot", y, ("v", 3)), ("dot", ("v", 1), y), ("cross", y, ("v", 3)), ("norm", y), ("mixed", y, ("v", 2), ("v", 3))]
     d2 = list(dict.fromkeys(d2))
     full = d1 + d2
     if not thorough:
